@@ -521,8 +521,27 @@ def rule_i(ctx: Context, R: Reporter, f: FuncInfo):
     R.analysed["C04.i:re-bindings of the temperature parameter"] = n
 
 
+def rule_j(ctx: Context, R: Reporter, f: FuncInfo):
+    """C04.j  the weight function (and the library code it calls) computes in double precision: nothing is cast to, or
+    allocated in, a narrower floating type -- not even behind a size threshold.  beta_t*logL - logZ_t is a cancellation
+    of terms of magnitude |logL|; in single precision it carries an absolute error of ~1e-7*|logL|, which for
+    log-likelihoods of a few thousand is visible in the weights and in the evidence ("any magnitude")."""
+    from ..util import precision_downgrades
+
+    n = 0
+    for g in [f] + [x for x in ctx.cg.reachable([f]) if x is not f]:
+        n += 1
+        for (node, t) in precision_downgrades(g.node):
+            R.check("C04.j", "the weight function computes in double precision throughout", False, g, node,
+                    msg=f"{g.short}: `{unparse(node)[:60]}` narrows to {t}: the mixture exponents beta_t*logL - logZ_t lose ~1e-7 of |logL| before the log-sum-exp, so log-weights, "
+                        f"normalised weights and the evidence are off for log-likelihoods of large magnitude (and only once the branch / size threshold is reached)", key=f"precision-downgrade:{g.short}")
+    R.check("C04.j", "weight function and callees scanned for narrow floating types", True, f, f.node, key="precision-scan")
+    R.analysed["C04.j:functions scanned"] = n
+
+
 def run(ctx: Context, R: Reporter):
     f = _weights_fn(ctx)
+    R.guard(rule_j, ctx, R, f)
     R.guard(rule_i, ctx, R, f)
     R.guard(rule_h, ctx, R, f)
     R.guard(rule_g, ctx, R, f)
@@ -570,6 +589,8 @@ def variants():
         Variant("g-equal-batch-stride", "bad", insert_after(sm, g, "logl_per_iter = self._history.get('logl')", "which_iter = np.arange(len(logl_all)) // len(logl_per_iter[0])"), ["C04.g"], quick=True),
         Variant("h-posterior-logw-shifted-in-place", "bad", replace_stmt("tempest/core.py", "SamplerCore.compute_posterior", "weights = np.exp(logw - np.max(logw))", "logw -= np.max(logw)\nweights = np.exp(logw)"), ["C04.h"], quick=True),
         Variant("h-benign-shifted-copy", "benign", replace_stmt("tempest/core.py", "SamplerCore.compute_posterior", "weights = np.exp(logw - np.max(logw))", "shifted = logw - np.max(logw)\nweights = np.exp(shifted)"), quick=True),
+        Variant("j-single-precision-table-above-threshold", "bad", replace_stmt(sm, g, "b = logl_all[:, None] * beta[None, :] - logz_iter[None, :]", "dt = np.float32 if logl_all.size * beta.size > 2 ** 20 else np.float64\nb = logl_all.astype(dt)[:, None] * beta.astype(dt)[None, :] - logz_iter.astype(dt)[None, :]"), ["C04.j"], quick=True),
+        Variant("j-benign-explicit-double", "benign", replace_stmt(sm, g, "b = logl_all[:, None] * beta[None, :] - logz_iter[None, :]", "b = logl_all.astype(np.float64)[:, None] * beta[None, :] - logz_iter[None, :]")),
         Variant("i-snap-to-one", "bad", insert_before(sm, g, "A = logl_all * beta_final", "if 1.0 - beta_final < 1e-4:\n    beta_final = 1.0"), ["C04.i"], quick=True),
         Variant("i-benign-float-cast", "benign", insert_before(sm, g, "A = logl_all * beta_final", "beta_final = float(beta_final)"), quick=True),
         Variant("benign-rename-b", "benign", alpha_rename(sm, g, "b_weighted", "comp"), quick=True),
